@@ -46,6 +46,27 @@ Lemma gen_wire_opt_calls :
                             bytes_of "w.keepalive"; bytes_of "info.HasEDE"].
 Proof. split; reflexivity. Qed.
 
+(* session 4 — the cache's reply producers (Model.apply_reply / hit_ad / hit_wire).  wire.ApplyReply and
+   wire.ClearAD return nothing, which purefunc still refuses: the header masks are tied as constants
+   (the weights Run.hdr_word gives the bits) and the flag / AD statements as text. *)
+Lemma gen_hit_flags :
+  wflag_qr = 32768 /\ wflag_aa = 1024 /\ wflag_tc = 512 /\ wflag_rd = 256 /\ wflag_ra = 128 /\ wflag_ad = 32
+  /\ wflag_cd = 16 /\ wflag_opcode_sh = 11 /\ wflag_opcode_msk = 30720.
+Proof. repeat split; reflexivity. Qed.
+Lemma gen_hit_src :
+  apply_reply_src = [bytes_of "flags |= FlagQR"; bytes_of "flags &^= FlagAA";
+                     bytes_of "flags = (flags &^ FlagOpcodeMsk) | (uint16(opcode)<<FlagOpcodeSh)&FlagOpcodeMsk";
+                     bytes_of "flags |= FlagRD"; bytes_of "flags &^= FlagRD"; bytes_of "flags |= FlagCD"; bytes_of "flags &^= FlagCD"]
+  /\ hit_exact_ad_src = [bytes_of "authData := header.AD()"; bytes_of "if req.CheckingDisabled && authData {";
+                         bytes_of "wire.ClearAD(body)"; bytes_of "authData = false"]
+  /\ hit_exact_req_ad_src = [bytes_of "authData := header.AD()"; bytes_of "if req.CD() && authData {";
+                             bytes_of "wire.ClearAD(body)"; bytes_of "authData = false"]
+  /\ hit_chase_merge_src = [bytes_of "ad = ad && segs[i].ad"]
+  /\ hit_chase_ad_src = [bytes_of "if !ad {"; bytes_of "wire.ClearAD(body)"; bytes_of "authData := ad";
+                         bytes_of "if req.CD() && authData {"; bytes_of "wire.ClearAD(body)"; bytes_of "authData = false"]
+  /\ hit_info_ad_src = [bytes_of "authData"].
+Proof. repeat split; reflexivity. Qed.
+
 (* WriteWire's top-level guards, in order (Model.write_wire follows them) *)
 Lemma gen_write_wire_guards :
   write_wire_guards_src = [bytes_of "!ok || len(body) < wire.HeaderLen"; bytes_of "!w.do && info.HasDNSSEC";
